@@ -1077,11 +1077,11 @@ coap_op_resource_deleted(coap_context_t *context,
   coap_binary_t *raw_packet = NULL;
   (void)user_data;
 
-  coap_op_obs_cnt_deleted(context, resource_name);
-
   fp_orig = fopen((const char *)context->dyn_resource_save_file->s, "r");
-  if (fp_orig == NULL)
+  if (fp_orig == NULL) {
+    coap_op_obs_cnt_deleted(context, resource_name);
     return 1;
+  }
 
   new = coap_malloc_type(COAP_STRING,
                          context->dyn_resource_save_file->length + 5);
@@ -1119,6 +1119,12 @@ coap_op_resource_deleted(coap_context_t *context,
   /* Either old or new is in place */
   (void)rename(new, (const char *)context->dyn_resource_save_file->s);
   coap_free_type(COAP_STRING, new);
+  /*
+   * The observe counter is forgotten only after the resource is gone from the
+   * dynamic resource file: if the process dies in between, a resource that is
+   * re-created on restart must not start counting from the beginning again.
+   */
+  coap_op_obs_cnt_deleted(context, resource_name);
   return 1;
 
 fail:
